@@ -1,16 +1,45 @@
 """C08 - a client is told of every foreign change, never its own (Trace_Manager.tla)."""
+import vlib
+from props.common import role1, harness
 from props.mgr import run_mgr
+
+
+def watcher_phase(ctx):
+    """client.NodeWatcher (Watcher.tla), the application-side sibling of a managed client's fold - beyond the listed
+    properties: whatever the real watcher does is reported (notes, evidence), it fails no check."""
+    states, trans, detail = role1(ctx, [("Watcher", "MC_Watcher.cfg", {"timeout": 600})])
+    for cfg, inv in (("MC_Watcher_ascoded.cfg", "Holds"), ("MC_Watcher_regress.cfg", "NoRegress")):
+        r = vlib.run_tlc(ctx.sc, "Watcher", cfg, allow_violation=True, timeout=600)
+        if not r.violation or inv not in r.violation:
+            raise vlib.MachineryError("%s no longer violates %s" % (cfg, inv))
+        detail.append({"cfg": cfg, "must_violate": inv, "violated": True})
+    res = harness(ctx, vlib.build_vh(), ["watcher", "--seed", str(ctx.seed), "--trials", "40" if ctx.tier == "quick" else "400"], timeout=1800)
+    return states, trans, detail, res
 
 
 def run(ctx):
     cov, failures = run_mgr(ctx, "C08")
+    wstates, wtrans, wdetail, wres = watcher_phase(ctx)
+    cov["states"] += wstates
+    cov["transitions"] += wtrans
+    cov["role1"] = cov["role1"] + wdetail
+    cov["evaluations"] += wres["evaluations"]
+    cov["extra"]["node_watcher"] = wres.get("extra")
+    seen = set()
+    for f in wres["failures"]:
+        if f["finding"] not in seen:
+            seen.add(f["finding"])
+            vlib.log("NOTE (beyond the listed properties): client.NodeWatcher - %s" % f["what"])
     cov["rule"] = ("Same recording as C07 with schedules dominated by point batches: node-point and edge-point batches (one origin "
                    "per batch: empty, the client's own id, another client's id, a user id) written to a client's node, to its child, "
                    "to the other client and to an unrelated node, on a graph where one client node is mirrored under two parents. "
                    "Trace_Manager.tla keeps, per running client, the queue of batches it is owed (mandatory: foreign origin on its "
                    "node or a descendant; optional where C08 is silent: empty origin on a descendant, own edge points; forbidden: "
                    "empty origin on its own node or its own id) and accepts a Points / EdgePoints callback only if it is the next "
-                   "owed batch; at quiescence nothing mandatory may be outstanding. evaluations = logged events.")
+                   "owed batch; at quiescence nothing mandatory may be outstanding. evaluations = logged events. "
+                   "client.NodeWatcher (Watcher.tla, beyond the list, reported only): a watcher started at a random moment of a "
+                   "numbered stream of writes; at quiescence its copy is compared with the store, outcomes are classified against "
+                   "the intended and the as-coded model.")
     return {"coverage": cov, "failures": failures,
             "assumptions": ["batches are only written to a quiescent system, so which clients run is unambiguous",
                             "the final fold-equals-store clause follows from in-order, complete delivery plus C01 and is not re-checked separately"]}
